@@ -17,7 +17,7 @@ import (
 func init() {
 	Register("C10", &Info{
 		Run:   runC10,
-		Quick: 10000, Thor: 400000,
+		Quick: 10000, Thor: 1500000,
 		Rule: "a world = one fingerprint (every predefined parrot by stratum, randomized seeds, generated consistent specs, fingerprinted copies) x one server choice drawn from what the ON-WIRE hello offers and utls documents as implemented: max version, a single key-exchange group (forcing HelloRetryRequest when no share was sent), a single TLS<=1.2 cipher suite, an ALPN protocol, the certificate key type (ECDSA/RSA/Ed25519); the client Config is in 15% of the worlds one that an earlier connection of another parrot already used; peer = repository server or Go standard-library server; then 1 B-40 kB echoed both ways; a handshake failure is attributed from both sides' errors; non-trivial = a plan knob was applicable; distinct = (fingerprint, knob, value, peer)",
 		Assumptions: []string{"'standards-compliant server' = Go standard library crypto/tls (go1.26.8) and the repository's own server; no OpenSSL peer (it would need real sockets outside the simulator)",
 			"TLS 1.3 cipher-suite choice cannot be forced on either Go server; it follows client order and AES hardware",
@@ -27,7 +27,7 @@ func init() {
 	})
 	Register("C11", &Info{
 		Run:   runC11,
-		Quick: 10000, Thor: 400000,
+		Quick: 10000, Thor: 1500000,
 		Rule: "worlds as in C10 plus optional resumption histories (second connection over a shared session cache); in 30% of the worlds the server holds ECH keys although the client offers no real ECH (parrots with a GREASE ECH extension make the server try and fail to open it); for every handshake that completed on both sides: version, cipher suite, ALPN, curve (where both APIs expose it), DidResume, ECHAccepted and server name (== SNI on the wire, empty if none) are compared between the client's ConnectionState and the server's, and ExportKeyingMaterial is compared for drawn label/context/length; non-trivial = handshake completed on both sides; distinct = (fingerprint, plan, resumed, exporter arguments)",
 		Assumptions: []string{"curve is compared only where both APIs expose it (TLS 1.3 and TLS 1.2 ECDHE full handshakes)"},
 		Real:        []string{"utls client from /repo", "utls tls.Server or std crypto/tls server"},
